@@ -31,29 +31,52 @@ impl CliObs {
 pub fn bin() -> String { std::env::var("KESTREL_BIN").unwrap_or_else(|_| "/verif/.cache/bin/kestrel".into()) }
 static COUNTER: AtomicUsize = AtomicUsize::new(0);
 
-pub fn run_kestrel(w: &World, args: &[String]) -> CliObs {
+/// open a pseudo-terminal pair; returns (master, slave)
+fn open_pty() -> Option<(std::fs::File, std::fs::File)> {
+    use std::os::unix::io::FromRawFd;
+    unsafe {
+        let m = libc::posix_openpt(libc::O_RDWR | libc::O_NOCTTY);
+        if m < 0 { return None; }
+        if libc::grantpt(m) != 0 || libc::unlockpt(m) != 0 { libc::close(m); return None; }
+        let mut buf = [0 as libc::c_char; 128];
+        if libc::ptsname_r(m, buf.as_mut_ptr(), buf.len()) != 0 { libc::close(m); return None; }
+        let s = libc::open(buf.as_ptr(), libc::O_RDWR | libc::O_NOCTTY);
+        if s < 0 { libc::close(m); return None; }
+        Some((std::fs::File::from_raw_fd(m), std::fs::File::from_raw_fd(s)))
+    }
+}
+
+pub fn run_kestrel(w: &World, args: &[String]) -> CliObs { run_kestrel_opts(w, args, false, 30) }
+
+/// like `run_kestrel`, but standard input is a terminal (nothing is ever typed on it)
+pub fn run_kestrel_tty(w: &World, args: &[String], timeout_s: u64) -> CliObs { run_kestrel_opts(w, args, true, timeout_s) }
+
+pub fn run_kestrel_opts(w: &World, args: &[String], tty_stdin: bool, timeout_s: u64) -> CliObs {
     let dir = format!("/verif/.cache/tmp/{}-{}", std::process::id(), COUNTER.fetch_add(1, Ordering::SeqCst));
     let _ = std::fs::remove_dir_all(&dir);
     std::fs::create_dir_all(&dir).expect("scratch dir");
     for (p, b) in &w.files { std::fs::write(format!("{}/{}", dir, p), b).expect("write fixture"); }
     let mut cmd = Command::new(bin());
-    cmd.args(args).current_dir(&dir).env_clear().stdin(Stdio::piped()).stdout(Stdio::piped()).stderr(Stdio::piped());
+    cmd.args(args).current_dir(&dir).env_clear().stdout(Stdio::piped()).stderr(Stdio::piped());
+    let pty = if tty_stdin { open_pty() } else { None };
+    match &pty { Some((_, slave)) => { cmd.stdin(Stdio::from(slave.try_clone().expect("dup pty"))); } None => { cmd.stdin(Stdio::piped()); } }
     for (k, v) in &w.env { cmd.env(k, v); }
     // no controlling terminal: password prompts must fail instead of waiting for a human
     unsafe { use std::os::unix::process::CommandExt; cmd.pre_exec(|| { libc::setsid(); Ok(()) }); }
     let mut obs = CliObs::default();
     let mut child = match cmd.spawn() { Ok(c) => c, Err(e) => { obs.stderr = format!("spawn failed: {}", e); let _ = std::fs::remove_dir_all(&dir); return obs; } };
-    let mut stdin = child.stdin.take().unwrap();
+    let stdin = child.stdin.take();
     let data = w.stdin.clone();
-    let tin = std::thread::spawn(move || { let _ = stdin.write_all(&data); });
+    let tin = std::thread::spawn(move || { if let Some(mut si) = stdin { let _ = si.write_all(&data); } });
     let mut so = child.stdout.take().unwrap(); let mut se = child.stderr.take().unwrap();
     let tout = std::thread::spawn(move || { let mut v = vec![]; let _ = so.read_to_end(&mut v); v });
     let terr = std::thread::spawn(move || { let mut v = vec![]; let _ = se.read_to_end(&mut v); v });
     let t0 = Instant::now();
     let status = loop {
-        match child.try_wait() { Ok(Some(s)) => break Some(s), Ok(None) => { if t0.elapsed() > Duration::from_secs(30) { let _ = child.kill(); let _ = child.wait(); obs.timed_out = true; break None; } std::thread::sleep(Duration::from_millis(2)); } Err(_) => break None }
+        match child.try_wait() { Ok(Some(s)) => break Some(s), Ok(None) => { if t0.elapsed() > Duration::from_secs(timeout_s) { let _ = child.kill(); let _ = child.wait(); obs.timed_out = true; break None; } std::thread::sleep(Duration::from_millis(2)); } Err(_) => break None }
     };
     let _ = tin.join();
+    drop(pty);
     obs.stdout = tout.join().unwrap_or_default();
     obs.stderr = String::from_utf8_lossy(&terr.join().unwrap_or_default()).to_string();
     if let Some(s) = status { obs.exit = s.code(); obs.signal = s.code().is_none(); }
